@@ -144,6 +144,20 @@ func gen(r *sim.Rng, tier string) *sim.Case {
 				for j := r.Range(0, 3); j > 0; j-- {
 					op.Ks = append(op.Ks, r.N(nKeys))
 				}
+				if r.Pct(15) {
+					// a bulk Delete: many keys (with repetitions; the key space is small), the
+					// keys that matter placed anywhere in the list
+					n := []int{17, 33, 65, 70, 129, 300}[r.N(6)]
+					filler := r.N(nKeys)
+					op.Ks = op.Ks[:0]
+					for j := 0; j < n; j++ {
+						op.Ks = append(op.Ks, filler)
+					}
+					for j := r.Range(1, 3); j > 0; j-- {
+						op.Ks[r.N(n)] = r.N(nKeys)
+					}
+					op.Ks[n-1] = r.N(nKeys)
+				}
 			case "GetWithMap":
 				seen := map[int]bool{}
 				for j := r.Range(1, 3); j > 0; j-- {
